@@ -80,7 +80,8 @@ class C14(Prop):
                   "stub": ["user classes (built per run by the simulator; every __init__ is an event)"]}
     vacuity = {"quick": ["probe:query_judged", "probe:undecorated_subclass_instance_seen", "probe:inferred_instance_queried",
                          "probe:symbolic_construction_checked", "probe:query_after_clear", "probe:overlap_judged",
-                         "probe:manual_init_class", "probe:dataclass_class", "probe:parent_query_sees_subclass"]}
+                         "probe:manual_init_class", "probe:dataclass_class", "probe:parent_query_sees_subclass",
+                         "probe:abandoned_registry_query", "probe:kwargs_filtered_query"]}
 
     # ------------------------------------------------------------------ generation
     def gen(self, rng, tier, campaign):
@@ -115,8 +116,11 @@ class C14(Prop):
                 ops.append(["clear"])
             elif r < 0.9:
                 ops.append(["query", rng.choice(names), rng.choice(["let", "call", "kwf"])])
-            else:
+            elif r < 0.95:
                 ops.append(["overlap", rng.choice(names), rng.choice([0, 1, 2]), rng.choice(names), val])
+            else:
+                # a no-domain query abandoned after k results: closed, dropped, or kept referenced and never resumed
+                ops.append(["partial", rng.choice(names), rng.choice([0, 1, 1, 2]), rng.choice(["close", "drop", "keep"])])
         ops.append(["query", rng.choice(names), "let"])
         ops.append(["query", names[0], "call"])
         return {"classes": classes, "ops": ops}
@@ -144,6 +148,7 @@ class C14(Prop):
         keep = []           # keeps objects alive so ids are not reused
         sig = []
         states = set()
+        kept_iters = []     # abandoned, still referenced, never resumed
         cleared = False
         inferred_ids = set()
 
@@ -293,6 +298,31 @@ class C14(Prop):
                                 "classes": plan["classes"]})
                         if len(set(type(o).__name__ for o in got_objs)) >= 2:
                             res.nontrivial = True
+                    elif kind == "partial":
+                        try:
+                            sim.cb_enabled = True
+                            try:
+                                it = run_query(op[1], "let")
+                                n = 0
+                                for _ in range(op[2]):
+                                    try:
+                                        next(it)
+                                        n += 1
+                                    except StopIteration:
+                                        break
+                                if op[3] == "close":
+                                    it.close()
+                                elif op[3] == "keep":
+                                    kept_iters.append(it)
+                                it = None
+                            finally:
+                                sim.cb_enabled = False
+                            sim.count("probe:abandoned_registry_query")
+                            sig.append(("partial", n, op[3]))
+                        except SimBudget:
+                            raise
+                        except Exception as e:
+                            sig.append(("partial", "raised:" + type(e).__name__))
                     elif kind == "overlap":
                         start = expected(op[1])
                         it = None
